@@ -176,8 +176,23 @@ def r03_3(ctx, run, info):
     # sibling equality of the two filters is implied by both being equal to the specification table
     ctx.holds("R03.3", f.where(site.loop), "the index's filter and the converter's filter have the same decision table (both equal to overlap)")
     # bare contig: query is columns 8/9 of the record
-    alt = [st for st in walk_own(f.node) if isinstance(st, ast.Assign) and norm(st.targets[0]) in (site.qs, site.qe) and isinstance(st.value, ast.Subscript) and norm(st.value.value) == p0]
-    cols = sorted(const_value(st.value.slice) for st in alt)
+    from ..core import local_defs
+
+    ldefs = local_defs(f.node)
+
+    def source_cols(name, seen=()):
+        out = set()
+        for d in ldefs.get(name, []):
+            if d is None:
+                continue
+            d0 = cc.strip_int(d)
+            if isinstance(d0, ast.Subscript) and norm(d0.value) == p0 and isinstance(const_value(d0.slice), int):
+                out.add(const_value(d0.slice))
+            elif isinstance(d0, ast.Name) and d0.id not in seen:
+                out |= source_cols(d0.id, seen + (name,))
+        return out
+
+    cols = sorted(source_cols(site.qs) | source_cols(site.qe))
     ctx.check(cols == [7, 8], "R03.3", f.where(), "for a bare contig path the interval searched is [path start, path end) (columns 8 and 9)", key_of(f, f"bare-contig-query:{cols}"), columns=cols)
     # every path element is converted: the loop over the split path has no filter other than skipping the orientation signs
     outer = [n for n in f.node.body if isinstance(n, ast.For)]
@@ -255,11 +270,23 @@ def r03_5(ctx, run, info):
     repo = ctx.repo
     sl = info["store_loop"]
     keys = []
+    a = norm(sl.target)
     for n in ast.walk(sl):
         if isinstance(n, ast.Subscript) and isinstance(n.slice, ast.Tuple) and len(n.slice.elts) >= 3:
             keys.append(n.slice)
+        elif isinstance(n, ast.Subscript) and isinstance(n.slice, ast.Call):
+            # key built by a helper: inline its returned tuple with the parameter replaced by the argument
+            h = repo.resolve_call(run, n.slice)
+            if h is not None:
+                rets = [r for r in walk_own(h.node) if isinstance(r, ast.Return) and isinstance(r.value, ast.Tuple)]
+                if len(rets) == 1 and len(h.params) == len(n.slice.args) == 1:
+                    import copy
+                    import re as _re
+
+                    src = norm(rets[0].value)
+                    src = _re.sub(rf"(?<![\w.]){_re.escape(h.params[0])}(?![\w])", norm(n.slice.args[0]), src)
+                    keys.append(ast.parse(src, mode="eval").body)
     ctx.require_count("R03.5", len(keys), 2, run.where(sl), "index key tuples in the writer")
-    a = norm(sl.target)
     for k in keys:
         e = [norm(x) for x in k.elts]
         ok = len(e) == 4 and e[0].endswith(".id") and "tags['SN'][1]" in e[1] and e[2].startswith("int(") and "tags['SO'][1]" in e[2] and "tags['SO'][1]" in e[3] and "tags['LN'][1]" in e[3] and "+" in e[3] and all(f"[{a}]" in x for x in e)
@@ -272,14 +299,29 @@ def r03_5(ctx, run, info):
         for n in walk_own(f.node):
             if isinstance(n, ast.Lambda):
                 arg = n.args.args[0].arg if n.args.args else None
+                import re as _re
+
+                body_txt = _re.sub(rf"(?<![\w.]){_re.escape(arg)}(?![\w])", "x", norm(n.body)) if arg else norm(n.body)
                 for s in ast.walk(n.body):
                     if isinstance(s, ast.Subscript) and isinstance(s.value, ast.Name) and s.value.id == arg and isinstance(const_value(s.slice), int):
-                        uses.append((f, n, const_value(s.slice), norm(n.body)))
+                        uses.append((f, n, const_value(s.slice), body_txt))
+            if isinstance(n, (ast.ListComp, ast.GeneratorExp, ast.DictComp, ast.SetComp)) and len(n.generators) == 1 and isinstance(n.generators[0].target, ast.Name):
+                import re as _re
+
+                arg = n.generators[0].target.id
+                exprs = list(n.generators[0].ifs) + ([n.key, n.value] if isinstance(n, ast.DictComp) else [n.elt])
+                for ex in exprs:
+                    for sub in ast.walk(ex):
+                        if isinstance(sub, ast.Compare) or sub is ex:
+                            txt = _re.sub(rf"(?<![\w.]){_re.escape(arg)}(?![\w])", "x", norm(sub))
+                            for s2 in ast.walk(sub):
+                                if isinstance(s2, ast.Subscript) and isinstance(s2.value, ast.Name) and s2.value.id == arg and isinstance(const_value(s2.slice), int):
+                                    uses.append((f, n, const_value(s2.slice), txt))
     ok_all = all(0 <= i <= 3 for _, _, i, _ in uses)
     ctx.check(ok_all and len(uses) >= 3, "R03.5", view.relpath, "every positional read of an index key in view uses a position 0..3 of the 4-tuple", key_of(next(iter(view.funcs.values())), f"key-reads:{sorted({i for _, _, i, _ in uses})}"), reads=[(f.qualname, i, b) for f, _, i, b in uses])
     # role checks: sort by (contig, start) = (x[1], x[2]); per-contig filter x[1] == contig; sort by start x[2]
     bodies = {b for _, _, _, b in uses}
-    roles_ok = any(b.replace(" ", "") in ("(x[1],x[2])",) for b in bodies) and any("[1] == " in b for b in bodies) and any(b in ("x[2]",) for b in bodies)
+    roles_ok = any(b.replace(" ", "") in ("(x[1],x[2])",) for b in bodies) and any("x[1] == " in b for b in bodies) and any(b in ("x[2]",) for b in bodies)
     ctx.check(roles_ok, "R03.5", view.relpath, "view reads position 1 as contig name and position 2 as start, as the writer stores them", key_of(next(iter(view.funcs.values())), f"key-roles:{sorted(bodies)}"), bodies=sorted(bodies))
     # the extra non-tuple entry is keyed by a string and holds the rank-0 contigs
     extra = [st for st in walk_own(run.node) if isinstance(st, ast.Assign) and isinstance(st.targets[0], ast.Subscript) and isinstance(st.targets[0].slice, ast.Constant) and isinstance(st.targets[0].slice.value, str)]
@@ -288,14 +330,32 @@ def r03_5(ctx, run, info):
 
 def opener_shape(f):
     """(sniff test text, then-open text, else-open text) of the `if is_file_gzipped(p): h = BGZFile(p,'rb') else: h = open(p, mode)` idiom in f."""
+    from ..paths import canon_test
+
     out = []
     for n in walk_own(f.node):
         if isinstance(n, ast.If) and "is_file_gzipped" in norm(n.test):
-            a = [st for st in n.body if isinstance(st, ast.Assign) and isinstance(st.value, ast.Call)]
-            b = [st for st in n.orelse if isinstance(st, ast.Assign) and isinstance(st.value, ast.Call)]
+            t, pol = canon_test(n.test, True)
+            gz, plain = (n.body, n.orelse) if pol else (n.orelse, n.body)
+            a = [st for st in gz if isinstance(st, ast.Assign) and isinstance(st.value, ast.Call)]
+            b = [st for st in plain if isinstance(st, ast.Assign) and isinstance(st.value, ast.Call)]
             if a and b:
-                out.append((n, a[0], b[0]))
+                out.append((OpenerIf(n, gz, plain), a[0], b[0]))
     return out
+
+
+class OpenerIf:
+    """The sniffing If with its branches normalised: .body = compressed branch, .orelse = plain branch."""
+
+    def __init__(self, node, gz, plain):
+        self.node = node
+        self.body = gz
+        self.orelse = plain
+        t = node.test
+        while isinstance(t, ast.UnaryOp) and isinstance(t.op, ast.Not):
+            t = t.operand
+        self.test = t
+        self.lineno = node.lineno
 
 
 def r03_6(ctx, run, info):
